@@ -6,7 +6,7 @@ struct ZV { Int v; }; struct QV { Int n, d; }; struct FV { Limbs l; long exp; bo
 static Int gz(ByteSource& in, size_t cap) { unsigned k = in.pick({6, 1, 1, 1}); if (k == 1) return Int(0); if (k == 2) return Int((long long)in.srange(-3, 3)); if (k == 3) return ref::pow2(in.range(0, 64 * cap)) * Int(in.flag() ? 1 : -1); return gen_int(in, cap); }
 static QV gq(ByteSource& in, size_t cap) { Int n = gz(in, cap), d = gen_int(in, cap, false); if (d.is_zero()) d = Int(1); Int g = ref::gcd(n, d); if (!n.is_zero()) { n = ref::tdiv(n, g); d = ref::tdiv(d, g); } else d = Int(1); return {n, d}; }
 static FV gf(ByteSource& in, unsigned prec) { FV f; f.prec = prec; size_t maxn = (prec + 127) / 64 + 1; size_t n = in.chance(20) ? 0 : (size_t)in.range(1, maxn); f.l = limbs_nz(in, n); if (n && in.chance(60)) { size_t z = (size_t)in.range(0, n - 1); std::fill(f.l.begin(), f.l.begin() + z, 0); } f.exp = n ? (long)in.srange(-4, 6) : 0; f.neg = n && in.flag(); return f; }
-static void put_f(mpf_ptr x, const FV& f) { size_t n = f.l.size(); for (size_t i = 0; i < n; i++) x->_mp_d[i] = f.l[i]; x->_mp_size = f.neg ? -(int)n : (int)n; x->_mp_exp = f.exp; }
+static void put_f(mpf_ptr x, const FV& f) { size_t n = f.l.size(); for (size_t i = 0; i < n; i++) x->_mp_d[i] = f.l[i]; x->_mp_size = f.neg ? -(int)n : (int)n; x->_mp_exp = f.exp; for (size_t i = n; i < (size_t)x->_mp_prec + 1; i++) x->_mp_d[i] = 0xdeadbeefdeadbeefull; }
 static bool feq(mpf_srcptr a, mpf_srcptr b) { int n = std::abs(a->_mp_size); return a->_mp_size == b->_mp_size && a->_mp_exp == b->_mp_exp && memcmp(a->_mp_d, b->_mp_d, n * 8) == 0; }
 static bool zeq(mpz_srcptr a, mpz_srcptr b) { return a->_mp_size == b->_mp_size && memcmp(a->_mp_d, b->_mp_d, zl(a) * 8) == 0; }
 
